@@ -52,10 +52,10 @@ Definition ctx_new (r : role) (part : bytes) (cfg : config) : option ctx :=
   else None.
 
 (* CheckConnectionReset::check_connection_reset *)
-Definition check_connection_reset {A} (r : res A) (s : ws_state) : res A :=
+Definition check_connection_reset {A} (r : res A) (s : ws_state) : res A * ws_state :=
   match r with
-  | RErr (EIo ConnReset) => if can_read s then r else RErr EConnectionClosed
-  | _ => r
+  | RErr (EIo ConnReset) => if closing_done s then (RErr EConnectionClosed, Terminated) else (r, s)
+  | _ => (r, s)
   end.
 
 (* set_additional: replace additional_send if it is empty or a Pong *)
@@ -76,7 +76,8 @@ Definition buffer_frame (x : ctx) (f : frame) (w : world) : res unit * ctx * wor
                            (h_opcode (f_hdr f)) (Some k)) (f_payload f), w')
     end in
   let '(r, c', w2) := codec_buffer_frame (x_codec x) f1 w1 in
-  (check_connection_reset r (x_state x), set_codec x c', w2).
+  let '(r', s') := check_connection_reset r (x_state x) in
+  (r', set_state (set_codec x c') s', w2).
 
 (* WebSocketContext::_write; returns should_flush *)
 Definition write_ (x : ctx) (data : option frame) (w : world) : res bool * ctx * world :=
@@ -106,7 +107,8 @@ Definition write_ (x : ctx) (data : option frame) (w : world) : res bool * ctx *
         end in
       match r1 with
       | ROk should_flush =>
-          if role_eqb (x_role x1) Server && negb (can_read (x_state x1)) then
+          if role_eqb (x_role x1) Server && closing_done (x_state x1)
+             && (match x_additional x1 with None => true | Some _ => false end) then
             let '(rw, c', w2) := write_out_buffer (x_codec x1) w1 in
             match rw with
             | ROk _ => (RErr EConnectionClosed, set_state (set_codec x1 c') Terminated, w2)
@@ -143,15 +145,7 @@ Definition flush (x : ctx) (w : world) : res unit * ctx * world :=
 (* WebSocketContext::close *)
 Definition close (x : ctx) (code : option close_frame) (w : world) : res unit * ctx * world :=
   match x_state x with
-  | Active =>
-      let x0 := set_state x ClosedByUs in
-      let '(r, x1, w1) := write_ x0 (Some (frame_close code)) w in
-      match r with
-      | ROk _ => flush x1 w1
-      | RErr e => (RErr e, x1, w1)
-      | RPanic s => (RPanic s, x1, w1)
-      | ROutOfFuel => (ROutOfFuel, x1, w1)
-      end
+  | Active => flush (set_additional_raw (set_state x ClosedByUs) (Some (frame_close code))) w
   | _ => flush x w
   end.
 
@@ -205,8 +199,9 @@ Definition do_close (x : ctx) (cl : option close_frame) : res (option (option cl
 Definition read_message_frame (x : ctx) (w : world) : res (option message) * ctx * world :=
   let '(r0, c1, w1) := read_frame (cfg_max_frame_size (x_cfg x)) (role_eqb (x_role x) Server)
                                   (cfg_accept_unmasked (x_cfg x)) (x_codec x) w in
-  let x1 := set_codec x c1 in
-  match check_connection_reset r0 (x_state x) with
+  let '(r0', s1) := check_connection_reset r0 (x_state x) in
+  let x1 := set_state (set_codec x c1) s1 in
+  match r0' with
   | RErr e => (RErr e, x1, w1)
   | RPanic s => (RPanic s, x1, w1)
   | ROutOfFuel => (ROutOfFuel, x1, w1)
@@ -330,7 +325,11 @@ Fixpoint read_loop (fuel : nat) (x : ctx) (w : world) : res message * ctx * worl
           | _ => (r, x', w')
           end
         else if role_eqb (x_role x) Server && negb (can_read (x_state x)) then
-          (RErr EConnectionClosed, set_state x Terminated, w)
+          let '(rw, c', w') := write_out_buffer (x_codec x) w in
+          match rw with
+          | ROk _ => (RErr EConnectionClosed, set_state (set_codec x c') Terminated, w')
+          | _ => (rw, set_codec x c', w')
+          end
         else (ROk tt, x, w) in
       match r0 with
       | ROk _ =>
